@@ -736,7 +736,15 @@ impl CliOptions for GetOptsOptions {
             config.set_cli().print_misformatted_file_names(true);
         }
 
-        for (key, val) in self.inline_config {
+        // The width options are clipped against the `max_width` in force at the moment they
+        // are set, so apply `max_width` and `use_small_heuristics` first and the other keys
+        // in a fixed order: the result must not depend on the hash order of the map.
+        let mut inline_config: Vec<(String, String)> = self.inline_config.into_iter().collect();
+        inline_config.sort_by_key(|(key, _)| {
+            let sets_page = matches!(key.as_str(), "max_width" | "use_small_heuristics");
+            (!sets_page, key.clone())
+        });
+        for (key, val) in inline_config {
             config.override_value(&key, &val);
         }
     }
